@@ -40,6 +40,49 @@ func (f Fault) String() string {
 type FaultCase struct {
 	Decoder string  `json:"decoder"`
 	Faults  []Fault `json:"faults"`
+	// Healthy: no fault at all - the first clause of C07 on a long stream (every batch must be returned)
+	Healthy bool `json:"healthy,omitempty"`
+}
+
+// runHealthy sends a whole well-formed history through one default consumer.
+func runHealthy(h []Letter) []string {
+	prod := arrow_record.NewProducer()
+	defer func() { protect(func() { prod.Close() }) }()
+	c := arrow_record.NewConsumer()
+	defer func() { protect(func() { c.Close() }) }()
+	for i, l := range h {
+		var bar *colarspb.BatchArrowRecords
+		var err error
+		want := 0
+		switch l.Sig {
+		case "traces":
+			td := l.BuildTraces()
+			want = td.SpanCount()
+			bar, err = prod.BatchArrowRecordsFromTraces(td)
+		case "logs":
+			ld := l.BuildLogs()
+			want = ld.LogRecordCount()
+			bar, err = prod.BatchArrowRecordsFromLogs(ld)
+		default:
+			md := l.BuildMetrics()
+			want = md.MetricCount()
+			bar, err = prod.BatchArrowRecordsFromMetrics(md)
+		}
+		if err != nil {
+			return nil // producer side: judged by C01-C03/C08
+		}
+		n, derr, pan := decodeWith(c, l.Sig, bar)
+		if pan != "" {
+			return []string{fmt.Sprintf("healthy stream, batch %d of %d: the consumer panicked on a well-formed batch: %s", i, len(h), firstLine(pan))}
+		}
+		if derr != nil {
+			return []string{fmt.Sprintf("healthy stream, batch %d of %d: a well-formed batch was not returned: %v", i, len(h), derr)}
+		}
+		if n != want {
+			return []string{fmt.Sprintf("healthy stream, batch %d of %d: %d items returned, %d sent", i, len(h), n, want)}
+		}
+	}
+	return nil
 }
 
 var mainTypes = map[colarspb.ArrowPayloadType]string{
@@ -322,6 +365,25 @@ func faultWorker(tier string, shard, nshard int) *WorkerOut {
 	out := &WorkerOut{WireStates: map[string]bool{}, Events: map[string]int{}, Layers: map[string]int{}, Counters: map[string]int{}}
 	idx := 0
 	seen := map[string]bool{}
+	// first clause on long healthy streams whose shared attribute readers are replaced on every batch
+	for i, pair := range [][2]string{{"traces", "logs"}, {"logs", "metrics"}, {"metrics", "traces"}} {
+		if nshard > 0 && i%nshard != shard {
+			continue
+		}
+		h := longEvictionHistory(pair[0], pair[1], 20)
+		out.Units++
+		out.Transitions += len(h)
+		out.Counters["healthy_long_streams"]++
+		fc := FaultCase{Healthy: true}
+		wex, _ := json.Marshal(fc)
+		key := fmt.Sprintf("healthy %s/%s x20 with large resource attributes", pair[0], pair[1])
+		wdBegin(Finding{Prop: "C07", Unit: Unit{Opts: DefaultOptions(), History: h, Tag: "healthy"}, Extra: wex, Key: key}, out)
+		viol := runHealthy(h)
+		wdEnd()
+		for _, m := range viol {
+			out.Findings = append(out.Findings, Finding{Prop: "C07", Msg: m, Unit: Unit{Opts: DefaultOptions(), History: h, Tag: "healthy"}, Key: key, Extra: wex})
+		}
+	}
 	for _, sig := range sigs() {
 		alpha := faultAlphabet(sig)
 		var prefixes [][]Letter
@@ -432,7 +494,12 @@ func init() {
 			fmt.Println("HARNESS-ERROR:", err)
 			return 2
 		}
-		viol := runFaultCase(a.Unit.History, fc)
+		var viol []string
+		if fc.Healthy {
+			viol = runHealthy(a.Unit.History)
+		} else {
+			viol = runFaultCase(a.Unit.History, fc)
+		}
 		for _, m := range viol {
 			fmt.Println("C07:", m)
 		}
